@@ -33,7 +33,7 @@ class PeerWorld(World):
         self.ridx = 1 if prm['role'] == 'passive' else 0
         proc = self.add_proc('R')
         cfg = ns.config.Config(
-            tls_enable=False, node_id='dtn://r/', keepalive_time=prm['keepalive'], idle_time=prm['idle'],
+            tls_enable=bool(prm.get('tls_enable', False)), node_id='dtn://r/', keepalive_time=prm['keepalive'], idle_time=prm['idle'],
             segment_size_mru=prm['seg_mru'], segment_size_tx_initial=prm['tx_init'],
             modulate_target_ack_time=prm['modulate'],
         )
